@@ -17,6 +17,25 @@ use std::time::Duration;
 
 pub struct C11;
 
+pub const FLAG_BUNDLES: &[&[&str]] = &[
+    &["--sort-semantically"],
+    &["--enable-cxx-namespaces"],
+    &["--merge-extern-blocks"],
+    &["--override-abi", ".*=system", "--override-abi", "[a-z].*=C-unwind", "--override-abi", ".*[0-9a-z]=aapcs", "--override-abi", "[A-Za-z_].*=win64"],
+    &["--override-abi", "f.*=C-unwind", "--override-abi", ".*=system"],
+    &["--with-derive-custom", ".*=Clone", "--with-derive-custom", "[A-Z].*=Debug", "--with-derive-custom", ".*[0-9]=Default"],
+    &["--with-attribute-custom", ".*=#[allow(dead_code)]", "--with-attribute-custom", "[A-Z].*=#[allow(unused)]"],
+    &["--opaque-type", "N[0-3]", "--opaque-type", "N.*[5-9]"],
+    &["--blocklist-type", "N2", "--blocklist-item", "N[45]"],
+    &["--no-copy", "N.*", "--no-debug", "[A-Z]1", "--no-default", ".*2", "--no-hash", ".*"],
+    &["--rustified-enum", ".*", "--newtype-enum", "[A-Z].*", "--bitfield-enum", ".*[0-9]", "--constified-enum-module", ".*_t"],
+    &["--new-type-alias", ".*", "--new-type-alias-deref", "[A-Z].*", "--normal-alias", ".*_t"],
+    &["--bindgen-wrapper-union", ".*", "--manually-drop-union", "[A-Z].*"],
+    &["--raw-line", "// a", "--raw-line", "// b", "--module-raw-line", "root", "// m1", "--module-raw-line", "root", "// m2"],
+    &["--must-use-type", ".*", "--with-derive-default", "--with-derive-hash", "--with-derive-partialeq", "--with-derive-eq", "--with-derive-partialord", "--with-derive-ord"],
+    &["--allowlist-type", "[A-Z].*", "--allowlist-function", ".*", "--allowlist-var", ".*", "--no-recursive-allowlist"],
+];
+
 #[derive(Clone, Debug, Serialize, Deserialize)]
 pub enum Source {
     Repo(String),
@@ -83,10 +102,18 @@ fn item_input(it: &PoolItem) -> Option<BgInput> {
         input.flags.push("--depfile".into());
         input.flags.push("{DIR}/deps.d".into());
     }
-    for f in &it.extra_flags {
-        if !input.flags.contains(f) {
-            input.flags.push(f.clone());
+    // groups: a flag and its values; bare switches must not repeat, valued flags may
+    let mut k = 0usize;
+    while k < it.extra_flags.len() {
+        let mut end = k + 1;
+        while end < it.extra_flags.len() && !it.extra_flags[end].starts_with("--") {
+            end += 1;
         }
+        let group = &it.extra_flags[k..end];
+        if group.len() > 1 || !input.flags.contains(&group[0]) {
+            input.flags.extend(group.iter().cloned());
+        }
+        k = end;
     }
     Some(input)
 }
@@ -276,8 +303,21 @@ impl Property for C11 {
             2 => c07::graph_strategy(7).prop_map(Source::Dag),
             2 => C18Gen::strategy().prop_map(Source::Prog),
         ];
-        let item = (src, proptest::bool::weighted(0.3), prop_oneof![3 => Just(vec![]), 1 => Just(vec!["--sort-semantically".to_string()]), 1 => Just(vec!["--enable-cxx-namespaces".to_string()])])
-            .prop_map(|(source, depfile, extra_flags)| PoolItem { source, depfile, extra_flags });
+        // option bundles whose entries land in keyed collections inside bindgen: several entries
+        // that match the same item must be resolved the same way in every process
+        let bundles = proptest::collection::vec(0..FLAG_BUNDLES.len(), 0..3).prop_map(|idx| {
+            let mut flags: Vec<String> = vec![];
+            let mut seen = std::collections::BTreeSet::new();
+            for i in idx {
+                // switches must not repeat (clap rejects that)
+                if FLAG_BUNDLES[i].len() == 1 && !seen.insert(FLAG_BUNDLES[i][0]) {
+                    continue;
+                }
+                flags.extend(FLAG_BUNDLES[i].iter().map(|x| x.to_string()));
+            }
+            flags
+        });
+        let item = (src, proptest::bool::weighted(0.3), bundles).prop_map(|(source, depfile, extra_flags)| PoolItem { source, depfile, extra_flags });
         let step = prop_oneof![
             6 => (0usize..8).prop_map(Step::Generate),
             2 => (0usize..8, 2u8..4).prop_map(|(i, n)| Step::SameBuilderAgain(i, n)),
